@@ -30,6 +30,7 @@ func init() {
 	finders["ovl"] = ovl.Find
 	parts["c04"] = c04.Run
 	finders["c04"] = c04.Find
+	replays["c04wide"] = c04.ReplayWide
 }
 
 // replays for the sequential (non-scheduler) parts that live in this binary.
